@@ -130,6 +130,8 @@ class Lab:
             for hook in self.after_step:
                 hook()
         self.check()
+        if until != inf and env.now < until:
+            env.run(until=until)        # move the clock to the horizon (nothing due at `until` is processed)
         return env.peek() == inf
 
 
